@@ -7,7 +7,8 @@ LEVEL = ("Mechanism level: sign-what-you-write pairing (every freshly tracked se
          "written into the trace is also recorded for signing, with the result's own peer), re-emitted CID-carrying states "
          "are re-recorded, new states only reference CIDs returned by the trackers, the trackers insert every component, "
          "compactify -> sign -> envelope order, and signer/verifier agree on serialisation, sorting and salt. "
-         "Acceptance for all histories and correctness of crypto crates are not decided.")
+         "Acceptance for all histories and correctness of crypto crates are not decided."
+         " Added: signer and verifier reshape the CID list identically (one sort each, no dedup/truncate); a seen canon is re-recorded for signing through any thin helper.")
 
 FRESH_SITES = {
     # function -> number of track_service_result sites confirmed by reading
